@@ -94,6 +94,9 @@ func c03GenSched(tier string, emit func(c03Case)) {
 				if tier == "quick" && (si+n)%3 != 0 {
 					continue
 				}
+				if tier == "thorough" && (si+n)%2 != 0 {
+					continue
+				}
 				reqs := []c03scen.Req{kinds[i], kinds[j]}
 				hs := [][]c03scen.Req{hist[(n+si)%len(hist)]}
 				if sh.Cache >= 1 && (n+si)%len(hist) != 1 {
